@@ -1,5 +1,61 @@
-"""engine static (filled in below)"""
+"""engine S: mechanical frame / non-interference checks on the source text of /repo (token-aware).
+
+These are side conditions that make a decomposition of a contract sound (e.g. "parameter `id` is read
+only by the id-emission statement") or frame conditions of the kind `assigns`/`modifies` would state
+("only these functions touch self.buffer").  They are syntactic, decided on every run, and reported as
+obligations of engine S.
+"""
+import os
+import re
+
+from . import rustlex
+from .overlay import REPO, rd
+from .report import Obligation
+
+
+def fn_body(src, name, scope=''):
+    pos = rustlex.find_fn(src, name, scope)
+    a, b = rustlex.fn_item_span(src, pos)
+    m = rustlex.mask(src)
+    ob = m.index('{', pos)
+    return src[ob + 1:b - 1], m[ob + 1:b - 1]
+
+
+def ident_occurrences(masked_body, ident):
+    return [mm.start() for mm in re.finditer(r'(?<![A-Za-z0-9_.])' + re.escape(ident) + r'(?![A-Za-z0-9_])', masked_body)]
+
+
+def check_leaf_id_noninterference():
+    """In each element writer the parameter `id` occurs exactly once, in the first statement
+    `self.working_buffer.extend(id.to_be_bytes().iter().skip_while(|&v| *v == 0u8));`"""
+    src = rd(os.path.join(REPO, 'src/tag_writer.rs'))
+    bad = []
+    for fn in ['write_unsigned_int_tag', 'write_signed_int_tag', 'write_float_tag', 'write_utf8_tag', 'write_binary_tag']:
+        try:
+            body, mb = fn_body(src, fn)
+        except LookupError as e:
+            return None, f'anchor lost: {e}'
+        occ = ident_occurrences(mb, 'id')
+        first_stmt = ' '.join(mb.strip().split(';')[0].split())
+        want = 'self.working_buffer.extend(id.to_be_bytes().iter().skip_while(|&v| *v == 0u8))'
+        if len(occ) != 1 or first_stmt != want:
+            bad.append(f'{fn}: `id` occurs {len(occ)}x, first statement: {first_stmt[:100]}')
+    return (not bad), '; '.join(bad)
+
+
+CHECKS = {
+    'S:leaf_id_noninterference': (check_leaf_id_noninterference, ['C16', 'C01', 'C09'],
+                                  'element writers read `id` only in their first statement (id-byte emission); makes the value x id decomposition of the K harnesses sound'),
+}
 
 
 def run_units(ctx):
-    return
+    for name, (fn, props, clause) in CHECKS.items():
+        if ctx.prop not in props:
+            continue
+        ok, detail = fn()
+        if ok is None:
+            ctx.infra_errors.append(f'{name}: {detail}')
+            continue
+        ctx.obligations.append(Obligation(name, 'S', 'discharged' if ok else 'failed', clause=clause, detail=detail, unit=name, n_checks=1, n_failed=0 if ok else 1,
+                                          raw=detail))
